@@ -26,7 +26,17 @@ Statements:
   ["raise"]                             user code raises
   ["assert_eq", a, b]                   PrivVal(a).assert_eq(b)
   ["later"]                             try: PrivVal(5).assert_eq(7) ... records whether the false assertion was rejected
+  ["breakif", cond]                     try: _breakif(cond) / except AttributeError: refused (nothing changes) / else: accepted
+  ["probe", label]                      conjunction probe (see below)
 cond: ["B", v] = PrivValBool(v) | ["C", a, b] = PrivVal(a) < PrivVal(b)
+
+Conjunction probes.  Next to the real run the rendered source keeps a PLAIN-PYTHON model of the nesting (`ST.m`): one 0/1
+value per open region -- guarded(c): c; _if(d): d, after _else: not (any earlier arm); _while(w): w, and-ed with the condition
+of every re-entry; _range: and of (k != stop) over the iterations so far; an ACCEPTED _breakif(c) and-s (1 - c) into the
+innermost enclosing loop, a refused one (the unchanged tree raises AttributeError when the innermost open block is not a
+loop) changes nothing.  A probe records the real guard value (no guard = 1), the error-suppression flag, whether LinComb.ONE
+is the guard object, whether a false assertion is tolerated, and what the model says: the product of all values, flag =
+(product == 0), tolerated = (product == 0).
 """
 import sys, os, json, traceback
 sys.path.insert(0, os.path.dirname(os.path.abspath(__file__)))
@@ -35,7 +45,7 @@ import canon
 R = W.R; B = W.B
 from pysnark.runtime import LinComb, PrivVal, guarded
 from pysnark.boolean import PrivValBool
-from pysnark.branching import BranchingValues, _if, _elif, _else, _endif, _while, _endwhile, _range, _endfor
+from pysnark.branching import BranchingValues, _if, _elif, _else, _endif, _while, _endwhile, _range, _endfor, _breakif
 
 
 class Boom(Exception):
@@ -58,14 +68,50 @@ class State:
         self.open = []                      # ids of the blocks that are open (opened and not yet handed to their closing call)
         self.report = {"probes": [], "later": []}
         self.keep = []                      # objects kept alive so that id() stays meaningful
+        self.m = []                         # plain-Python model of the nesting: [kind, value, any-earlier-arm, block id]
+        self.one0 = LinComb.ONE
+        self.report["cprobes"] = []; self.report["breakif"] = []
+
+    # ---- the plain-Python model of the enclosing conditions
+    def m_push(self, kind, v, blk=None): self.m.append([kind, int(bool(v)), int(bool(v)), blk])
+    def m_pop(self): self.m.pop()
+    def m_elif(self, v):
+        top = self.m[-1]; top[1] = (1 - top[2]) & int(bool(v)); top[2] |= int(bool(v))
+    def m_else(self):
+        top = self.m[-1]; top[1] = 1 - top[2]; top[2] = 1
+    def m_loop(self, blk, v):
+        """first evaluation of a loop condition opens the frame, every later one is and-ed in; always true (used in `while`)"""
+        if self.m and self.m[-1][3] == blk and self.m[-1][0] == "loop": self.m[-1][1] &= int(bool(v))
+        else: self.m_push("loop", v, blk)
+        return True
+    def m_break(self, v):
+        for fr in reversed(self.m):
+            if fr[0] == "loop":
+                fr[1] &= 1 - int(bool(v)); return
+    def m_product(self):
+        r = 1
+        for fr in self.m: r &= fr[1]
+        return r
+
+    def cprobe(self, label):
+        g = R.guard
+        rec = {"label": label, "guard": 1 if g is None else g.value, "ign": bool(R._ignore_errors),
+               "one_is_guard": (LinComb.ONE is g) if g is not None else (LinComb.ONE is self.one0),
+               "expect": self.m_product(), "nesting": [[fr[0], fr[1]] for fr in self.m], "triple": triple(self.p)}
+        try:
+            PrivVal(5).assert_eq(7); rec["false_assertion"] = "tolerated"
+        except AssertionError:
+            rec["false_assertion"] = "rejected"
+        self.report["cprobes"].append(rec)
 
     def enter_try(self):
-        snap = (triple(self.p), identity(), list(self.open), R.guard, LinComb.ONE, len(self.ctx.stack))
+        snap = (triple(self.p), identity(), list(self.open), R.guard, LinComb.ONE, len(self.ctx.stack), len(self.m))
         self.keep.append(snap)
         return snap
 
     def leave_try(self, snap, exc):
-        before, ident, open_before, _, _, depth = snap
+        before, ident, open_before, _, _, depth, mdepth = snap
+        if exc is not None: del self.m[mdepth:]
         after = triple(self.p)
         kind, blk, call = self.phase
         unwound = [b for b in self.open if b not in open_before]
@@ -100,6 +146,11 @@ def cond_src(c):
     raise ValueError(c)
 
 
+def cond_val(c):
+    """the 0/1 value of a condition specification (for the plain-Python model)"""
+    return int(bool(c[1])) if c[0] == "B" else int(int(c[1]) < int(c[2]))
+
+
 def render(stmts, ind, out, ctr, loopvar=None):
     pad = "    " * ind
     for s in stmts:
@@ -113,6 +164,15 @@ def render(stmts, ind, out, ctr, loopvar=None):
                 out.append(f"{pad}if {loopvar} == {int(s[3])}: _.{s[1]} = PrivVal({int(s[2])})")
         elif t == "raise":
             out.append(f"{pad}raise Boom()")
+        elif t == "probe":
+            out.append(f"{pad}ST.cprobe({s[1]!r})")
+        elif t == "breakif":
+            out.append(f"{pad}try:")
+            out.append(f"{pad}    _breakif({cond_src(s[1])}, ctx=_)")
+            out.append(f"{pad}except AttributeError as brk:")
+            out.append(f"{pad}    ST.report['breakif'].append('refused: ' + str(brk)[:70])")
+            out.append(f"{pad}else:")
+            out.append(f"{pad}    ST.report['breakif'].append('accepted'); ST.m_break({cond_val(s[1])})")
         elif t == "assert_eq":
             out.append(f"{pad}PrivVal({int(s[1])}).assert_eq({int(s[2])})")
         elif t == "later":
@@ -134,7 +194,8 @@ def render(stmts, ind, out, ctr, loopvar=None):
         elif t == "guarded":
             ctr[0] += 1; n = ctr[0]
             out.append(f"{pad}def fn{n}():")
-            render(s[2], ind + 1, out, ctr, loopvar); out.append(f"{pad}    pass")
+            out.append(f"{pad}    ST.m_push('guarded', {cond_val(s[1])})")
+            render(s[2], ind + 1, out, ctr, loopvar); out.append(f"{pad}    ST.m_pop()")
             out.append(f"{pad}guarded({cond_src(s[1])})(fn{n})()")
         elif t == "if":
             ctr[0] += 1; n = ctr[0]
@@ -143,25 +204,25 @@ def render(stmts, ind, out, ctr, loopvar=None):
                     out.append(f"{pad}c{n} = {cond_src(c)}")
                     out.append(f"{pad}ST.phase = ('open', {n}, '_if')")
                     out.append(f"{pad}_if(c{n}, ctx=_)")
-                    out.append(f"{pad}ST.open.append({n})")
+                    out.append(f"{pad}ST.open.append({n}); ST.m_push('if', {cond_val(c)})")
                 else:
                     out.append(f"{pad}ST.phase = ('switch', {n}, '_elif')")
-                    out.append(f"{pad}_elif(lambda: {cond_src(c)}, ctx=_)")
+                    out.append(f"{pad}_elif(lambda: {cond_src(c)}, ctx=_); ST.m_elif({cond_val(c)})")
                 out.append(f"{pad}ST.phase = ('body', {n}, None)")
                 render(body, ind, out, ctr, loopvar)
             if s[2] is not None:
                 out.append(f"{pad}ST.phase = ('switch', {n}, '_else')")
-                out.append(f"{pad}_else(ctx=_)")
+                out.append(f"{pad}_else(ctx=_); ST.m_else()")
                 out.append(f"{pad}ST.phase = ('body', {n}, None)")
                 render(s[2], ind, out, ctr, loopvar)
             out.append(f"{pad}ST.phase = ('close', {n}, '_endif'); ST.open.remove({n})")
-            out.append(f"{pad}_endif(ctx=_)")
+            out.append(f"{pad}_endif(ctx=_); ST.m_pop()")
             out.append(f"{pad}ST.phase = ('body', ST.open[-1] if ST.open else None, None)")
         elif t == "while":
             ctr[0] += 1; n = ctr[0]
             out.append(f"{pad}k{n} = 0")
             out.append(f"{pad}ST.phase = ('open', {n}, '_while')")
-            out.append(f"{pad}while _while({cond_src(s[1])}, ctx=_) and k{n} < {int(s[2])}:")
+            out.append(f"{pad}while _while({cond_src(s[1])}, ctx=_) and ST.m_loop({n}, {cond_val(s[1])}) and k{n} < {int(s[2])}:")
             out.append(f"{pad}    if k{n} == 0: ST.open.append({n})")
             out.append(f"{pad}    ST.phase = ('body', {n}, None)")
             render(s[3], ind + 1, out, ctr, f"k{n}")
@@ -169,7 +230,7 @@ def render(stmts, ind, out, ctr, loopvar=None):
             out.append(f"{pad}    ST.phase = ('switch', {n}, '_while (next iteration)')")
             out.append(f"{pad}if {n} not in ST.open: ST.open.append({n})")
             out.append(f"{pad}ST.phase = ('close', {n}, '_endwhile'); ST.open.remove({n})")
-            out.append(f"{pad}_endwhile(ctx=_)")
+            out.append(f"{pad}_endwhile(ctx=_); ST.m_pop()")
             out.append(f"{pad}ST.phase = ('body', ST.open[-1] if ST.open else None, None)")
         elif t == "for":
             ctr[0] += 1; n = ctr[0]
@@ -179,13 +240,14 @@ def render(stmts, ind, out, ctr, loopvar=None):
             out.append(f"{pad}ST.phase = ('open', {n}, '_range')")
             out.append(f"{pad}for i{n} in _range({stop}{mx}, ctx=_):")
             out.append(f"{pad}    if k{n} == 0: ST.open.append({n})")
+            out.append(f"{pad}    ST.m_loop({n}, k{n} != {int(s[1][1]) if isinstance(s[1], list) else int(s[1])})")
             out.append(f"{pad}    ST.phase = ('body', {n}, None)")
             render(s[3], ind + 1, out, ctr, f"k{n}")
             out.append(f"{pad}    k{n} += 1")
             out.append(f"{pad}    ST.phase = ('switch', {n}, '_range (next iteration)')")
             out.append(f"{pad}if {n} in ST.open:")
             out.append(f"{pad}    ST.phase = ('close', {n}, '_endfor'); ST.open.remove({n})")
-            out.append(f"{pad}    _endfor(ctx=_)")
+            out.append(f"{pad}    _endfor(ctx=_); ST.m_pop()")
             out.append(f"{pad}ST.phase = ('body', ST.open[-1] if ST.open else None, None)")
         else:
             raise ValueError(t)
@@ -209,7 +271,7 @@ def main():
             st = State(cfg["p"])
             env = {"ST": st, "PrivVal": PrivVal, "PrivValBool": PrivValBool, "guarded": guarded, "Boom": Boom,
                    "BranchingValues": BranchingValues, "_if": _if, "_elif": _elif, "_else": _else, "_endif": _endif,
-                   "_while": _while, "_endwhile": _endwhile, "_range": _range, "_endfor": _endfor}
+                   "_while": _while, "_endwhile": _endwhile, "_range": _range, "_endfor": _endfor, "_breakif": _breakif}
             status = "ok"
             try:
                 exec(compile(src, "<history>", "exec"), env)
